@@ -1,9 +1,13 @@
 //! verif-harness: binds the TLA+ specification in /verif/spec to the real adblock-rust code.
 //!   replay <cases.jsonl> <report.json>   spec -> impl (M2): execute TLC-generated cases
 //!   record <driver> <out.ndjson> [args]  impl -> spec (M3): run a driver, log events for TLC
+mod cb;
+mod conc;
 mod cos;
 mod hist;
+mod lists;
 mod net;
+mod req;
 mod ser;
 mod util;
 
@@ -28,6 +32,7 @@ fn main() {
             let mut ctx = net::Ctx::default();
             let mut nctx = net::NetCtx::default();
             let mut cctx = cos::CosCtx::default();
+            let rctx = req::ReqCtx::default();
             for c in cases.iter() {
                 let k = c["k"].as_str().unwrap_or("");
                 match k {
@@ -40,6 +45,8 @@ fn main() {
                     }
                     "universe-cos" => cctx.set_universe(c),
                     "cos" => cos::replay_cos(&cctx, c, &mut rep),
+                    "req" => req::replay_req(&rctx, c, &mut rep),
+                    "list" => lists::replay_list(c, &mut rep),
                     "net" => net::replay_net(&nctx, c, &mut rep),
                     "hist" => hist::replay_hist(&nctx, c, &mut rep),
                     "c02" => net::replay_c02(&ctx, c, &mut rep),
@@ -50,6 +57,14 @@ fn main() {
                 }
             }
             rep.write(&args[3]);
+        }
+        "c19seq" => conc::c19seq(&args[2]),
+        #[cfg(not(feature = "unsync"))]
+        "c19" => {
+            let seed: u64 = args.get(3).and_then(|s| s.parse().ok()).unwrap_or(1);
+            let threads: usize = args.get(4).and_then(|s| s.parse().ok()).unwrap_or(8);
+            let per: usize = args.get(5).and_then(|s| s.parse().ok()).unwrap_or(300);
+            conc::record_c19(&args[2], seed, threads, per, args.get(6).map(|s| s.as_str()).unwrap_or(""));
         }
         "c09child" => {
             ser::c09_child(&args[2], args.get(3).map(|s| s == "1").unwrap_or(false), args.get(4).map(|s| s == "1").unwrap_or(true));
@@ -70,6 +85,9 @@ fn main() {
                 }
                 "c10" => ser::record_c10(&args[3], seed, n > 1),
                 "c18" => cos::record_c18(&args[3], seed, n),
+                "c12" => req::record_c12(&args[3], seed, n),
+                "c11" => lists::record_c11(&args[3], seed, n),
+                "c20" => cb::record_c20(&args[3], seed, n, args.get(6).map(|s| s.as_str()).unwrap_or("")),
                 other => {
                     eprintln!("harness: unknown driver {:?}", other);
                     std::process::exit(2);
